@@ -68,7 +68,7 @@ CLAIMED = {
              'real DDEHistory is installed at the module-attribute seam during run(euler|heun|scipy); updates must be '
              '((k+1)dt, y_{k+1}) / monotone, queries before 0 return the initial state and later ones the interpolant '
              'of what was fed, every Euler-stage derivative must equal the reference with delayed terms read from the '
-             'piecewise-linear interpolant of the recorded trajectory (1e-9), adaptive runs stay within 2e-3*max|y| of '
+             'piecewise-linear interpolant of the recorded trajectory (1e-9), adaptive runs stay within 1e-2*max|y| of '
              'a fine-step RK4 method-of-steps reference.',
         note='Trusted: RefNet semantics incl. the two delay notations; RK4(h=dt/40)+linear history as adaptive reference. '
              'Loudly refused DDE forms are discarded and counted. Known finding KF-C10-vectorized-tau-first-element.',
